@@ -100,7 +100,7 @@ pub fn run_full_history(spec: &FullWorldSpec, seed: u64, prop_salt: u64, index: 
         {
             let ctx = Ctx { cfg: &cfg, step, op: &op, res: &res, pre: &snap, post: &post, w_pre: &w_pre, w_post: &world };
             for m in monitors.iter_mut() {
-                m.on_step(&ctx, &mut rng, &mut out);
+                guarded(&mut out, &format!("step {} ({})", step, op.kind()), |out| m.on_step(&ctx, &mut rng, out));
             }
         }
         snap = post;
@@ -110,10 +110,25 @@ pub fn run_full_history(spec: &FullWorldSpec, seed: u64, prop_salt: u64, index: 
     }
     if !out.violations.iter().any(|v| v.known_sig.is_none()) {
         for m in monitors.iter_mut() {
-            m.on_end(&world, &snap, &cfg, &mut rng, &mut out);
+            guarded(&mut out, "end of history", |out| m.on_end(&world, &snap, &cfg, &mut rng, out));
         }
     }
     HistoryReport { index, out, steps, ok_steps, cfg: cfg.describe(), log, op_kinds }
+}
+
+/// Run a monitor callback; a panic inside it (arithmetic on observed values that cannot be consistent, e.g. a
+/// balance that grew where it must shrink) is turned into a violation instead of tearing the run down.
+pub fn guarded<F: FnOnce(&mut Out)>(out: &mut Out, at: &str, f: F) {
+    use crate::chain::{IN_MONITOR, LAST_PANIC};
+    let was = IN_MONITOR.with(|x| x.replace(true));
+    let mut local = Out::default();
+    let r = std::panic::catch_unwind(std::panic::AssertUnwindSafe(|| f(&mut local)));
+    IN_MONITOR.with(|x| x.set(was));
+    out.merge(local);
+    if r.is_err() {
+        let msg = LAST_PANIC.with(|p| p.borrow().clone());
+        out.violation("MONITOR", "observed_values_inconsistent", format!("at {}: the monitor's arithmetic on the observed values failed ({}): the observations contradict each other", at, msg));
+    }
 }
 
 pub struct RunSummary {
